@@ -79,6 +79,9 @@ func (e *Engine) run(init *State, base int) []*State {
 					if _, ok := r.(pathKilled); ok {
 						return
 					}
+					if os.Getenv("GOVC_STACK") != "" && e.curInstr != nil {
+						fmt.Fprintf(os.Stderr, "AT %s: %s\n", e.curInstr.Parent(), e.curInstr)
+					}
 					panic(r)
 				}
 			}()
